@@ -23,6 +23,7 @@ C05 — the scheduler layer: theorems about the bookkeeping model of `script/src
   `process_io` with `iteration_cycles` left set.
 * `process_io_post_partial`: `process_io` touches no counter / fd / terminated VM and only ever writes
   `Runnable` / `WaitForWrite` states (partial: the full "no servable IO left" post-condition is observed).
+* `process_io_leaves_no_reader_on_closed_end`: after `process_io` no VM waits for a read on a closed pipe.
 * `checked_sub_before_process_io_deadlocks` (finding F20 as an exact negation witness of the model):
   an uninterrupted run that succeeds, and the same run cut at a limit that the yield charge of a
   `read` oversteps: the suspended state holds a servable read/write pair, no VM is runnable, the
@@ -288,6 +289,23 @@ theorem process_io_post_partial (s t : Sch) (h : processIo s = .ok t) :
 example : (processIo { states := [(0, .waitWrite 3 0 20), (1, .waitRead 2 10)], fds := [(2, 1), (3, 0)],
                        inst := [0, 1] }).toOption.map (fun t => (t.states, servableIo t)) =
     some ([(0, .waitWrite 3 10 20), (1, .runnable)], false) := by decide
+
+/-- **process_io_leaves_no_reader_on_closed_end.** For EVERY scheduler state whose `states` map has
+its keys in order (a `BTreeMap`): after `process_io` no VM is left waiting for a read on a pipe whose
+other end is closed — the first half of "no servable IO is left" (the writer half and the read/write
+pairs are observed through the compared scans, not proved: they additionally need the fd-ownership
+of waiters as an invariant). -/
+theorem process_io_leaves_no_reader_on_closed_end (s t : Sch) (hk : KS s.states) (h : processIo s = .ok t) :
+    closedReaders t = [] :=
+  processIo_no_closed_reader s t hk h
+
+-- VM 1 reads from fd 2 whose other end (3) is gone, VM 2 reads from fd 4 whose writer waits: both are served
+example : KS ([(0, VmState.waitWrite 5 0 8), (1, .waitRead 2 10), (2, .waitRead 4 8)] : List (Nat × VmState)) := by
+  unfold KS; decide
+example : (processIo { states := [(0, .waitWrite 5 0 8), (1, .waitRead 2 10), (2, .waitRead 4 8)],
+                       fds := [(2, 1), (4, 2), (5, 0)], inst := [0, 1, 2] }).toOption.map
+      (fun t => (t.states, closedReaders t, servableIo t)) =
+    some ([(0, .runnable), (1, .runnable), (2, .runnable)], [], false) := by decide
 
 /-! ### negation witnesses on the model of the code as written -/
 
